@@ -223,6 +223,10 @@ int sp_ienv(int ispec)
 /* ======================================================================= events */
 static int G_evdebug; static __thread int T_zp_nocand; static __thread long T_ev[6]; static __thread int T_ev_first[6];
 static __thread long T_layout_bad, T_layout_seen; static __thread int T_layout_type;
+/* a violation of the storage properties observed by shared code that has no case at hand (first one of the case is kept) */
+static __thread char T_sticky_key[64], T_sticky_msg[400];
+void vf_sticky_storage_viol(const char *key, const char *fmt, ...)
+{ if (T_sticky_key[0]) return; snprintf(T_sticky_key, sizeof T_sticky_key, "%s", key); va_list ap; va_start(ap, fmt); vsnprintf(T_sticky_msg, sizeof T_sticky_msg, fmt, ap); va_end(ap); }
 void slu_verif_event(int kind, int a, int b)
 {
     if (kind == 5) { T_layout_seen++; if (a && T_layout_bad++ == 0) T_layout_type = b; if (G_evdebug) fprintf(stderr, "EV5 bad=%d type=%d\n", a, b); return; }
@@ -446,13 +450,14 @@ int main(int argc, char **argv)
         { uint64_t jr = rng_u64(&c.rng); int jm = (int)(jr % 12), jv = (int)((jr >> 20) % 7);
           vf_set_junk(jm < 3 ? 256 : jm == 3 ? 300 + jv : jm == 4 ? 400 + jv : (int[]){ 0x00, 0xFF, 0xA5 }[i % 3]); }
         struct itimerval it = { { 0, 0 }, { cpu, 0 } }; setitimer(ITIMER_PROF, &it, NULL);
-        T_layout_bad = T_layout_seen = 0;
+        T_layout_bad = T_layout_seen = 0; T_sticky_key[0] = 0;
         fn(&c);
         struct itimerval off = { { 0, 0 }, { 0, 0 } }; setitimer(ITIMER_PROF, &off, NULL);
         /* guarded hook 5 (invariant of the live data structure, evaluated by the library at every growth in flight inside a caller
            workspace): the four growable arrays lie in order, without overlap, below the stack head. Owned by the storage properties. */
         if (T_layout_bad > 0 && (!strcmp(prop, "C07") || !strcmp(prop, "C08") || !strcmp(prop, "C19")))
             vf_viol(&c, "workspace-layout-broken", "%ld of %ld growths in flight inside a caller workspace left the four factor arrays out of order, overlapping or beyond the recorded stack head (first: growth of array type %d): the library's accounting of the workspace no longer covers what it uses", T_layout_bad, T_layout_seen, T_layout_type);
+        if (T_sticky_key[0] && (!strcmp(prop, "C06") || !strcmp(prop, "C07") || !strcmp(prop, "C08") || !strcmp(prop, "C19"))) vf_viol(&c, T_sticky_key, "%s", T_sticky_msg);
         if (T_layout_seen > 0) vf_tag(&c, "layout-checked");
         emit_case(&c);
         if (vf_ledger_live() > 0) vf_ledger_purge();
